@@ -119,13 +119,18 @@ def parent_main(args) -> int:
             cmd += ["--part", args.part]
         e = dict(os.environ)
         e["PYTHONHASHSEED"] = "0"
-        procs.append((i, out, subprocess.Popen(cmd, cwd=env.VERIF_DIR, env=e, stdout=subprocess.PIPE,
-                                               stderr=subprocess.PIPE, text=True)))
+        errf = open(os.path.join(tmpdir, f"shard{i}.err"), "w+")     # files, not pipes: a full pipe would block a shard
+        procs.append((i, out, subprocess.Popen(cmd, cwd=env.VERIF_DIR, env=e, stdout=subprocess.DEVNULL,
+                                               stderr=errf, text=True), errf))
     merged = {"evaluations": 0, "nontrivial": set(), "classes": {}, "known": {}, "part_evals": {}, "samples": [],
               "notes": {}}
     harness_error = False
-    for i, out, p in procs:
-        so, se = p.communicate()
+    for i, out, p, errf in procs:
+        p.wait()
+        errf.seek(0)
+        se = errf.read()
+        errf.close()
+        os.remove(errf.name)
         if p.returncode != 0 or not os.path.exists(out):
             harness_error = True
             sys.stderr.write(f"HARNESS-ERROR: shard {i} exit {p.returncode}\n{se[-6000:]}\n")
